@@ -97,6 +97,26 @@ theorem undefined_acl_is_refused (c : Conf) (act : Bytes) (pre : List Bytes) (na
     rcases hact with h | h <;> simp [h]
   simp only [hne, ↓reduceIte, key pre hdef]
 
+/-- A section in which no http_access line yields a rule (none written, or all of them skipped for a bad action word or
+an empty ACL list) denies every request: defaults_if_none() adds `http_access deny all`, and nothing a configuration can
+say about the built-in `all` stops it from matching. -/
+theorem no_usable_rule_denies_everything (lines : List Bytes) (c1 c : Conf) (h1 : parseLines builtins lines = .ok c1)
+    (hnone : c1.rules = []) (h : parseConf lines = .ok c) (r : Req) : observe c r = .deny :=
+  no_rule_denies_all lines c1 c h1 hnone h r
+
+/-- **Text level: method names.**  Every registered method name, written as squid prints it, is read as that method in an
+`acl ... method` line and in a request line, so `acl m method NAME` matches exactly the requests whose method is NAME. -/
+theorem registered_method_names_are_themselves (i : Nat) (h1 : 1 ≤ i) (h2 : i < methodOther) :
+    parseMethod (imageOf i) = { id := i } ∧ requestMethod (imageOf i) = { id := i } :=
+  registered_methods_parse i h1 h2
+
+/-- A method value that is not a (case-insensitive) prefix of any registered method name is an extension method with that
+very name — the region outside the prefix finding. -/
+theorem extension_method_is_itself (tok : Bytes)
+    (h : ∀ j, 1 ≤ j → j ≤ methodOther → imageCaseCmpToken (imageOf j) tok = false) :
+    parseMethod tok = { id := methodOther, image := tok } :=
+  extension_method_parse tok h
+
 /-- **Text level: a configuration line.**  A line written as words (non-empty, free of white space, not starting with `#`)
 separated by single spaces is read back by the tokenizer as exactly these words. -/
 theorem config_line_words (ws : List Bytes) (h : ∀ t ∈ ws, Word t) : tokens (joinSp ws) = ws :=
